@@ -129,6 +129,60 @@ def merge(results):
     return m
 
 
+MIRI_PROPS = {"C02": 8, "C03": 8}  # property -> number of parallel interpreted histories (thorough tier only)
+
+
+def miri_leg(prop, seed, n, timeout_s=3000):
+    """Supplementary leg: n short engine histories (a dozen transactions each, see plan.rs cfg!(miri)) executed by
+    `cargo +nightly miri run`, i.e. under the undefined-behaviour / overflow-checking interpreter, with the property's
+    monitor attached. Monitor violations found there are ordinary violations (they are real executions); an
+    interpreter report (UB, unsupported operation, timeout) is a harness-level note in the evidence, never a verdict."""
+    os.makedirs(SHARDS, exist_ok=True)
+    e = env()
+    e["MIRIFLAGS"] = "-Zmiri-disable-isolation"
+    e["CARGO_TARGET_DIR"] = os.path.join(TARGET, "miri")
+    procs = []
+    for i in range(n):
+        out = os.path.join(SHARDS, "%s-miri-%d.json" % (prop, i))
+        err = os.path.join(SHARDS, "%s-miri-%d.stderr" % (prop, i))
+        for f in (out, err):
+            if os.path.exists(f):
+                os.remove(f)
+        cmd = ["cargo", "+nightly", "miri", "run", "--offline", "--", "run", "--prop", prop, "--tier", "quick", "--seed", str(seed),
+               "--shard", str(100 + i), "--nshards", "1", "--budget", "10", "--out", out]
+        procs.append((out, err, subprocess.Popen(cmd, cwd=HARNESS, env=e, stdout=subprocess.DEVNULL, stderr=open(err, "w"))))
+    deadline = time.time() + timeout_s
+    results, note = [], {"interpreted_histories": 0, "interpreted_steps": 0, "interpreter_reports": [], "result": ""}
+    for out, err, p in procs:
+        try:
+            p.wait(timeout=max(1.0, deadline - time.time()))
+        except subprocess.TimeoutExpired:
+            p.kill()
+            p.wait()
+            note["interpreter_reports"].append("timed out (no verdict)")
+            continue
+        tail = ""
+        try:
+            tail = open(err).read()
+        except OSError:
+            pass
+        if p.returncode != 0 or not os.path.exists(out):
+            kind = "undefined behaviour reported" if "Undefined Behavior" in tail else ("unsupported operation" if "unsupported operation" in tail else "exit %s" % p.returncode)
+            errs = [l for l in tail.splitlines() if l.startswith("error")]
+            note["interpreter_reports"].append("%s: %s" % (kind, (errs[0] if errs else tail[-200:])[:300]))
+            continue
+        try:
+            r = json.load(open(out))
+        except Exception as ex:  # noqa: BLE001
+            note["interpreter_reports"].append("unreadable summary: %s" % ex)
+            continue
+        results.append(r)
+        note["interpreted_histories"] += int(r.get("histories", 0))
+        note["interpreted_steps"] += int(r.get("steps", 0))
+    note["result"] = ("no undefined behaviour or overflow reported by Miri on %d interpreted transactions" % note["interpreted_steps"]) if not note["interpreter_reports"] else "see interpreter_reports (harness-level notes, not a verdict)"
+    return results, note
+
+
 def match_known(prop, violations, known):
     """split violations into (listed-open, unlisted). A finding matches on exact signature."""
     open_sigs = {k["signature"]: k for k in known if k["property"] == prop and k.get("status") == "open"}
@@ -235,6 +289,10 @@ def cmd_check(prop, tier, seed, replay=None, budget=None, nshards=None):
     ns = nshards or min(16, ncpu)
     timeout = spec.get("timeout", {}).get(tier, 900 if tier == "quick" else 7200)
     results, notes = run_shards(prop, tier, seed, ns, budget, timeout)
+    miri_note = None
+    if tier == "thorough" and prop in MIRI_PROPS and not budget:
+        miri_results, miri_note = miri_leg(prop, seed, MIRI_PROPS[prop])
+        results = results + miri_results
     m = merge(results)
     open_sigs, listed, unlisted = match_known(prop, m["violations"], known)
     listed_counts = {sig: sum(int(v.get("count", 1)) for v in vs) for sig, vs in listed.items()}
@@ -270,7 +328,7 @@ def cmd_check(prop, tier, seed, replay=None, budget=None, nshards=None):
         rc = 2
 
     wall = time.time() - t0
-    write_evidence(prop, tier, seed, m, spec, len(unlisted), notes, wall, listed_counts)
+    write_evidence(prop, tier, seed, m, spec, len(unlisted), notes, wall, listed_counts, {"miri": miri_note} if miri_note else None)
     status = {0: "HELD", 1: "VIOLATED", 2: "INCONCLUSIVE"}[rc]
     print("%s property=%s tier=%s seed=%s histories=%d steps=%d evaluations=%d distinct=%d unlisted_violations=%d known_reproduced=%d wall=%.1fs"
           % (status, prop, tier, seed, m["histories"], m["steps"], m["evaluations"], len(m["distinct"]), len(unlisted), sum(listed_counts.values()), wall))
